@@ -136,6 +136,45 @@ def c19(e):
         return "one cell of matrix a changed"
 
 
+# second corruption per property: the events added after the seeded-change rounds
+def c08b(e):
+    if e.get("ev") == "dscan" and e.get("ret") == "ok" and e.get("hits"):
+        e["hits"] = e["hits"][1:]
+        return "one hit of the scanner removed (dscan)"
+
+
+def c03b(e):
+    if e.get("ev") == "max" and e.get("ret") == "hit" and num(e["score"]):
+        e["score"] -= 1
+        return "score of the best hit - 1"
+
+
+def c10b(e):
+    if e.get("ev") == "rc_commute" and e.get("ret") == "ok" and e.get("bgs"):
+        e["bgs"][0][0] += 300
+        return "background of the reverse-complemented weight matrix changed"
+
+
+def c13b(e):
+    if e.get("ev") == "tfm_score" and e.get("ret") == "ok" and "sat" in e and e["iters"]:
+        e["iters"][-1]["tk"] -= 40 * e["iters"][-1]["ginv"]
+        return "threshold of a tiny-p query lowered by 40 (saturating distribution)"
+
+
+def c19b(e):
+    if e.get("ev") == "dense" and e.get("ret") == "ok" and e["o"].get("op") == "iter_ends" and e["obs"]["y"] and e["obs"]["y"][0]:
+        e["obs"]["n"] += 1
+        return "remaining length of a two-ended iteration + 1"
+
+
+def c14b(e):
+    if e.get("ev") == "rd_next" and e.get("ret") == "record" and e["rec"].get("id"):
+        e["rec"]["id"] = e["rec"]["id"] + "x"
+        return "identifier of a returned record changed"
+
+
+MUT2 = dict(C08=c08b, C03=c03b, C10=c10b, C13=c13b, C19=c19b, C14=c14b)
+
 MUT = dict(C01=c01, C02=c02, C03=c03, C04=c04, C05=c05, C06=c06, C07=c07, C08=c08, C09=c09, C10=c10, C11=c11, C12=c12,
            C13=c13, C14=c14, C15=c15, C16=c16, C17=c17, C18=c18, C19=c19)
 # properties whose histories are stateful: also test that dropping one event is noticed
@@ -165,11 +204,13 @@ def main(args):
                 continue
             hists = lmv.split_histories(nd)
             tests = [("corrupt", MUT[pid])]
+            if pid in MUT2:
+                tests.append(("corrupt", MUT2[pid]))
             if pid in DROP:
                 tests.append(("drop", DROP[pid]))
-            for kind, fn in tests:
+            for tno, (kind, fn) in enumerate(tests):
                 target = None
-                for hi, h in enumerate(hists[: 4000]):
+                for hi, h in enumerate(hists[: 8000]):
                     for li in range(1, len(h)):
                         e = json.loads(h[li])
                         if kind == "corrupt":
@@ -189,7 +230,7 @@ def main(args):
                 hi, li, repl, what = target
                 # the corrupted history plus two untouched neighbours (which must still be accepted)
                 sel = [i for i in (hi - 1, hi, hi + 1) if 0 <= i < len(hists)]
-                out = os.path.join(work, "%s-%s.ndjson" % (pid, kind))
+                out = os.path.join(work, "%s-%s-%d.ndjson" % (pid, kind, tno))
                 with open(out, "w") as f:
                     for i in sel:
                         for j, line in enumerate(hists[i]):
